@@ -267,9 +267,10 @@ theorem backEndsOfType_nil (exp : List String) (t : TypeInfo) :
 
 theorem moduleOK_iff (m : Module) :
     (checkAttrList AttrTable.moduleAttrs [] m.attrs = [] ∧ verifyBackEnds m = [] ∧
-      staticRefErrs m = [] ∧ gateErrs m = []) ↔ ModuleOK m := by
+      staticRefErrs m = [] ∧ gateErrs false m = [] ∧ gateErrs true m = []) ↔ ModuleOK m := by
+  rw [gateErrs_nil]
   simp only [checkAttrList_ok, verifyBackEnds, List.append_eq_nil_iff, backEndErrs_nil,
-    staticRefErrs, List.flatMap_eq_nil_iff, walk_nil, backEndsOfType_nil, gateErrs_nil, noVisit,
+    staticRefErrs, List.flatMap_eq_nil_iff, walk_nil, backEndsOfType_nil, noVisit,
     and_true]
   have hb : (∀ b ∈ m.staticRefs, (if b = true then ([] : List EK) else [EK.staticRef]) = []) ↔
       ∀ b ∈ m.staticRefs, b = true := by
@@ -282,12 +283,15 @@ theorem moduleOK_iff (m : Module) :
 
 theorem check_nil_iff (p : Program) :
     check p = [] ↔
-      (passEarly p = [] ∧ passAttrs p = [] ∧ passVerify p = [] ∧ passConstraints p = []) := by
+      (passEarly p = [] ∧ passAttrs p = [] ∧ passVerify p = [] ∧ passConstraints p = [] ∧
+        passDeferred p = []) := by
   unfold check
   by_cases h1 : passEarly p = []
   · by_cases h2 : passAttrs p = []
     · by_cases h3 : passVerify p = []
-      · simp [h1, h2, h3]
+      · by_cases h4 : passConstraints p = []
+        · simp [h1, h2, h3, h4]
+        · simp [h1, h2, h3, h4]
       · simp [h1, h2, h3]
     · simp [h1, h2]
   · simp [h1]
@@ -295,11 +299,12 @@ theorem check_nil_iff (p : Program) :
 theorem check_iff_realisable (p : Program) (wf : ∀ c ∈ allTypes p, TypeWF c.2) :
     check p = [] ↔ Realisable p := by
   rw [check_nil_iff, passEarly_nil, passAttrs_nil, passVerify_nil, passConstraints_nil]
-  simp only [earlyByEntity, attrsByEntity, verifyByEntity, constraintsByEntity,
+  simp only [earlyByEntity, attrsByEntity, verifyByEntity, constraintsByEntity, passDeferred,
     List.append_eq_nil_iff, List.flatMap_eq_nil_iff]
   constructor
-  · rintro ⟨e, ⟨ma, ta⟩, ⟨mb, tv⟩, ⟨tc, sr⟩, g⟩
-    refine ⟨fun m hm => (moduleOK_iff m).1 ⟨ma m hm, mb m hm, sr m hm, g m hm⟩, fun c hc => ?_⟩
+  · rintro ⟨e, ⟨ma, ta⟩, ⟨mb, tv⟩, ⟨⟨tc, sr⟩, g⟩, gd⟩
+    refine ⟨fun m hm => (moduleOK_iff m).1 ⟨ma m hm, mb m hm, sr m hm, g m hm, gd m hm⟩,
+      fun c hc => ?_⟩
     exact (typeOK_iff p c.1 c.2 (wf c hc)).1 ⟨by simpa [List.flatMap_eq_nil_iff] using e c hc,
       ta c hc, tv c hc, tc c hc⟩
   · rintro ⟨hm, ht⟩
@@ -308,6 +313,7 @@ theorem check_iff_realisable (p : Program) (wf : ∀ c ∈ allTypes p, TypeWF c.
     exact ⟨fun c hc => by simpa [List.flatMap_eq_nil_iff] using (T c hc).1,
       ⟨fun m hmm => (M m hmm).1, fun c hc => (T c hc).2.1⟩,
       ⟨fun m hmm => (M m hmm).2.1, fun c hc => (T c hc).2.2.1⟩,
-      ⟨fun c hc => (T c hc).2.2.2, fun m hmm => (M m hmm).2.2.1⟩, fun m hmm => (M m hmm).2.2.2⟩
+      ⟨⟨fun c hc => (T c hc).2.2.2, fun m hmm => (M m hmm).2.2.1⟩,
+        fun m hmm => (M m hmm).2.2.2.1⟩, fun m hmm => (M m hmm).2.2.2.2⟩
 
 end Emboss.Constraints
